@@ -4,9 +4,8 @@ use crate::core::*;
 use crate::model::gen::*;
 use crate::model::prog::*;
 use crate::model::{ProgCase, ProgSpace};
-use crate::props::{c01, Meta};
+use crate::props::Meta;
 use crate::space::etok::Render;
-use crate::space::TextSpace;
 use crate::subject;
 use oq3_semantics::syntax_to_semantics::parse_source_string;
 use serde_json::json;
@@ -356,13 +355,13 @@ pub fn spaces(tier: Tier, _seed: u64) -> Vec<Box<dyn Space>> {
     v.push(crate::props::gprog::spines(1, false, false, false, prog_oracle));
     v.push(fault_space(prog_oracle));
     v.push(arity_space());
-    v.push(TextSpace::toks(c01::etok(true, 3, Render::Spaced), text_oracle));
+    v.push(crate::props::c01::tok_space(true, 3, Render::Spaced, text_oracle));
     if tier.is_thorough() {
         v.push(wider_space(true, 2));
         v.push(wider_space(false, 1));
         v.push(crate::props::gprog::spines(2, false, true, false, prog_oracle));
         v.push(crate::props::gprog::sequences(2, true, false, prog_oracle));
-        v.push(TextSpace::toks(c01::etok(false, 4, Render::Spaced), text_oracle));
+        v.push(crate::props::c01::tok_space(false, 4, Render::Spaced, text_oracle));
     }
     v
 }
